@@ -12,8 +12,8 @@ use cgmath::{
 };
 use serde_json::json;
 
-use crate::fw::{catch, Clause, Extra, RunCfg};
-use crate::gen::{Rng, Tier};
+use cgv_core::fw::{catch, Clause, Extra, RunCfg};
+use cgv_core::gen::{Rng, Tier};
 
 pub trait Tag: Copy + PartialEq + Debug + 'static {
     const NAME: &'static str;
